@@ -126,7 +126,6 @@ func (s *c19Schema) Resolve(f *ggql.Field, _ map[string]interface{}) (interface{
 	return nil, nil
 }
 
-
 func c19Exec(input sx.S) (obs sx.S) {
 	defer func() {
 		if r := recover(); r != nil {
